@@ -649,6 +649,9 @@ func vnetRun(t *testing.T, sc vnetScenario, prop int, res *vnetResult) {
 		}
 		s.SetReadContext(canceledContext())
 		s.SetWriteContext(canceledContext())
+		if want := confs[p.side].maxStreamReadBufferSize(); prop == 20 && !p.uni && s.inwin != want {
+			fail("", "locally opened stream %d enforces receive window %d, advertised initial_max_stream_data_bidi_local is %d", s.ID(), s.inwin, want)
+		}
 		st := &vnetStream{plan: p, id: s.ID(), w: s}
 		sts = append(sts, st)
 		byID[p.side][st.id] = st
@@ -689,6 +692,9 @@ func vnetRun(t *testing.T, sc vnetScenario, prop int, res *vnetResult) {
 				}
 				as.SetReadContext(canceledContext())
 				as.SetWriteContext(canceledContext())
+				if want := confs[s].maxStreamReadBufferSize(); prop == 20 && as.inbufoff == 0 && len(as.inbuf) == 0 && as.in.start == 0 && as.inwin != want {
+					fail("", "accepted stream %d enforces receive window %d, advertised initial_max_stream_data is %d", as.ID(), as.inwin, want)
+				}
 				st.r = as
 				if !st.plan.uni {
 					ev("ev wclose %d %d", s, as.ID())
